@@ -258,7 +258,7 @@ def tokens_for(tables):
 
 def gen_reads(rng, case, nframes, thorough):
     """the tail of a case: close, reads through every API, optional truncation"""
-    ops = ["close"]
+    ops = ["close" if rng.random() < 0.85 else "rotate"]
     flt = case["filter"]
 
     def one_read():
